@@ -4,6 +4,7 @@ import (
 	"github.com/bolkedebruin/rdpgw/cmd/rdpgw/identity"
 	"github.com/bolkedebruin/rdpgw/cmd/rdpgw/transport"
 	"net"
+	"sync"
 	"time"
 )
 
@@ -37,6 +38,10 @@ type Tunnel struct {
 	// It is of the type *net.TCPConn
 	rwc net.Conn
 
+	// writeMu serialises writers of the outgoing transport, the packet loop
+	// and the goroutine forwarding from the remote desktop server both write
+	writeMu sync.Mutex
+
 	// BytesSent is the total amount of bytes sent by the server to the client minus tunnel overhead
 	BytesSent int64
 
@@ -52,6 +57,8 @@ type Tunnel struct {
 
 // Write puts the packet on the transport and updates the statistics for bytes sent
 func (t *Tunnel) Write(pkt []byte) {
+	t.writeMu.Lock()
+	defer t.writeMu.Unlock()
 	verifHook("tun.write.begin", t, len(pkt))
 	n, _ := t.transportOut.WritePacket(pkt)
 	t.BytesSent += int64(n)
